@@ -482,3 +482,37 @@ Definition apply_edits (d : doc) (author ts : str) (edits : list edit) (orc : li
     let '(s2, ap2, sk2, out2, _, _) := fold_left step_heur planned (sr, ap1, sk1, out1, orc1, occ1) in
     (e_doc (s_eng s2), ap2, sk2, out2)
   end.
+
+(* ---------- REPLY: engine._reply_to_comment + _anchor_reply_comment + CommentsManager.add_comment(parent_id) ---------- *)
+Fixpoint thread_root (fuel : nat) (cm : list comment) (i : str) : str :=
+  match fuel with
+  | 0 => i
+  | S f => match find (fun c => str_eqb (c_id c) i) cm with
+           | Some c => match c_parent c with Some (x :: p) => thread_root f cm (x :: p) | _ => i end
+           | None => i end
+  end.
+Definition has_cref (i : str) (ks : list rchild) : bool := existsb (fun k => match k with CRef j => str_eqb j i | _ => false end) ks.
+Fixpoint node_has_cref (i : str) (n : node) : bool :=
+  match n with NRun _ _ ks => has_cref i ks | NWrap _ _ _ cs => existsb (node_has_cref i) cs | _ => false end.
+Definition doc_has_cref (i : str) (d : doc) : bool := existsb (fun p => existsb (node_has_cref i) (p_nodes p)) (doc_paras d).
+Definition reply_doc (author ts : str) (d : doc) (target text : str) : doc * bool :=
+  if negb (existsb (fun c => str_eqb (c_id c) target) (d_comments d)) then (d, false)
+  else
+    let cid := str_of_nat (next_comment_id d) in
+    let root := thread_root (S (length (d_comments d))) (d_comments d) target in
+    let d1 := {| d_stories := d_stories d; d_next_uid := d_next_uid d;
+                 d_comments := d_comments d ++ [{| c_id := cid; c_author := author; c_date := ts; c_text := text; c_parent := Some root |}] |} in
+    let '(d2, ru) := fresh d1 in
+    let refrun := NRun ru rpr_cref [CRef cid] in
+    let has_start := existsb (fun p => existsb (fun n => (fix go (n : node) : bool := match n with NCrs j => str_eqb j target | NWrap _ _ _ cs => existsb go cs | _ => false end) n) (p_nodes p)) (doc_paras d2) in
+    if negb has_start then (d2, true)
+    else
+      let d3 := upd_doc (fun n => match n with NCrs j => if str_eqb j target then Some [NCrs j; NCrs cid] else None | _ => None end) d2 in
+      let via_ref := doc_has_cref target d3 in
+      let d4 := upd_doc (fun n => match n with
+                                  | NRun u f ks => if via_ref && has_cref target ks then Some [n; NCre cid; refrun] else None
+                                  | NCre j => if negb via_ref && str_eqb j target then Some [NCre j; NCre cid; refrun] else None
+                                  | _ => None end) d3 in
+      (d4, true).
+Definition review_session (d : doc) (author ts : str) (acts : list action) : doc * nat * nat :=
+  apply_actions (reply_doc author ts) (normalize_doc d) acts.
